@@ -361,7 +361,11 @@ class RefPeer:
             if pgn != s["pgn"]:
                 self._err("eoms-pgn", "EOMS PGN 0x%X, session PGN 0x%X" % (pgn, s["pgn"]))
             if not s["complete"] and s.get("lost"):
+                # a segment was (deliberately) lost: a conforming responder rejects the incomplete message at EOMS
                 s["done"] = True
+                s["aborted_by_me"] = self.sim.now
+                if s["mode"] == "rts":
+                    self.send_later(self._lat(), 7, R.FD_CM_PF, src, R.fd_abort(sess, 2, s["pgn"]))
                 return
             if not s["complete"]:
                 self._err("eoms-early", "EOMS before all %d segments were received (next expected %d)" % (s["packets"], s["next"]))
